@@ -143,9 +143,9 @@ def run_b2b_cases(report, tier, seed, scratch, log=print):
     passes = [("no stalls", 0, reqs)]
     short = [r for r in reqs if r[1] <= 16]
     if tier == "thorough":
-        passes += [("random stalls", 1, reqs), ("heavy stalls", 2, short)]
+        passes += [("random stalls", 1, reqs), ("heavy stalls", 2, short), ("idle junk", 3, short)]
     else:
-        passes += [("random stalls", 1, short)]
+        passes += [("random stalls", 1, short), ("idle junk", 3, [r for r in reqs if r[1] <= 4])]
     recorded = {}
     t0 = time.time()
     pool = _pool()
@@ -161,7 +161,8 @@ def run_b2b_cases(report, tier, seed, scratch, log=print):
     report.add(b2b_requests=len(reqs), b2b_cycles_recorded=ncyc)
     # vacuity witnesses (measured on the recorded stimulus, no verdict): stalled beats, gaps, wrapping bursts
     wit = {"stalled_beat_cycles": 0, "idle_gap_cycles": 0, "wrap_bursts_that_wrap": 0, "unaligned_starts": 0,
-           "bursts_of_256_beats": 0}
+           "bursts_of_256_beats": 0, "idle_cycles_with_junk_on_request_lines": 0,
+           "ready_while_idle_with_junk": 0}
     for name, (jobs, outs) in recorded.items():
         for o in outs:
             for c in o:
@@ -173,6 +174,10 @@ def run_b2b_cases(report, tier, seed, scratch, log=print):
                 else:
                     wit["stalled_beat_cycles"] += sum(1 for x in c["cyc"] if x[3] == 1 and x[1] == 0)
                     wit["idle_gap_cycles"] += sum(1 for x in c["cyc"] if x[0] == 0)
+                    if name == "idle junk":
+                        wit["idle_cycles_with_junk_on_request_lines"] += c["junk"]
+                        wit["ready_while_idle_with_junk"] += 1 if c["junk"] and any(
+                            x[0] == 0 and x[1] == 1 for x in c["cyc"]) else 0
     if not all(wit.values()):
         raise MachineryError("vacuous stimulus: %r" % wit)
     report.add(b2b_witnesses=wit)
@@ -238,9 +243,36 @@ def run_b2b_cases(report, tier, seed, scratch, log=print):
 # ============================================================================== C: Burst2Beat, G mode
 def run_b2b_graph(report, tier, log=print):
     cfgs = fam.gconfigs(tier)
+    wit = {}
+
+    def witness(gl):
+        """vacuity witnesses of the accepted graphs (measured on the inputs TLC asked for, no verdict): per DUT the
+        burst types offered and the idle cycles with junk on the request lines"""
+        for g in gl.duts:
+            ivs = list(g.alphabet.values())
+            wit[GFAM.describe(g.spec)] = {
+                "offered_burst_types": sorted({iv[4] for iv in ivs if iv[0] == 1}),
+                "idle_inputs_with_junk": sum(1 for iv in ivs if iv[0] == 0 and any(iv[1:6])),
+                "idle_junk_no_legal_request": sum(1 for iv in ivs if iv[0] == 0 and iv[4] == 3),
+                "cfg_bursts": sorted(g.cfg["bursts"]), "cfg_junk": "junk" in g.cfg,
+                "caps": sorted(g.spec.get("caps", [0, 1, 2]))}
     stats = run_batches(GFAM, report, [cfgs], ["BeatAddress", "FirstLast", "ConsumedOnce", "ValidHold"],
-                        ["BurstTerminates"], log=log, spec_budget=150000 if tier == "quick" else 600000)
+                        ["BurstTerminates"], log=log, spec_budget=150000 if tier == "quick" else 600000,
+                        on_accept=witness)
     report.add(gmode_duts=len(stats), gmode_per_dut=stats)
+    if not report.violations:
+        # every configured DUT was explored, with every burst type of its configuration, the junk configurations with
+        # junk, and the restricted-capability expanders are among them
+        if len(wit) != len(cfgs):
+            raise MachineryError("G-mode explored %d of %d AXIBurst2Beat configurations" % (len(wit), len(cfgs)))
+        for name, w in wit.items():
+            if w["offered_burst_types"] != w["cfg_bursts"]:
+                raise MachineryError("vacuous G-mode stimulus for %s: %r" % (name, w))
+            if w["cfg_junk"] != (w["idle_inputs_with_junk"] > 0) or (w["cfg_junk"] and not w["idle_junk_no_legal_request"]):
+                raise MachineryError("vacuous idle-junk stimulus for %s: %r" % (name, w))
+        if not any(w["cfg_junk"] for w in wit.values()) or not any(w["caps"] == [0, 1] for w in wit.values()):
+            raise MachineryError("G-mode configurations lack the idle-junk / capabilities={FIXED,INCR} expanders")
+    report.add(gmode_witnesses=wit)
 
 
 # ============================================================================== E: data-width converters, T mode
@@ -267,7 +299,7 @@ def conv_plan(tier, scratch):
 
 
 def _dutname(fb, tb):
-    return "AXIUpConverter" if fb < tb else "AXIDownConverter"
+    return "AXIUpConverter" if fb < tb else "AXIDownConverter" if fb > tb else "AXIConverter(equal widths)"
 
 
 def conv_cases(fb, tb, reqs, tier, rnd):
@@ -314,6 +346,10 @@ def conv_cases(fb, tb, reqs, tier, rnd):
             mode = 0
         cases.append({"writes": [op(prime, 8), op(r, 0)], "reads": [op(prime, 9), op(r, 1)],
                       "seed": rnd.randrange(1 << 30), "stall": mode, "cls": c, "sparse": False})
+    # half of the runs with stalls (those with an odd seed): junk instead of zeros on the lines of every Env-driven
+    # channel while its valid is low (fam.conv_record, AxiConvCases header)
+    for c in cases:
+        c["junk"] = bool(c["stall"] > 0 and c["seed"] % 2 == 1)
     return cases
 
 
@@ -390,6 +426,13 @@ def run_conv(report, tier, seed, scratch, log=print):
     flat = [(ji, ci, rec) for ji, o in enumerate(outs) for ci, rec in enumerate(o)]
     log("recorded %d converter runs, %d cycles in %.1fs" % (len(flat), sum(r["cycles"] for _, _, r in flat),
                                                            time.time() - t0))
+    jw = {"runs_with_junk_on_idle_lines": sum(r["junk"] for _, _, r in flat),
+          "channel_cycles_with_junk": sum(r["junk_cycles"] for _, _, r in flat),
+          "idle_w_or_r_cycles_with_last_high": sum(r["junk_last"] for _, _, r in flat),
+          "stalled_runs_without_junk": sum(1 for ji, ci, r in flat if not r["junk"] and jobs[ji][1][ci]["stall"] > 0)}
+    if not all(jw.values()):
+        raise MachineryError("vacuous converter stimulus: %r" % jw)
+    report.add(conv_witnesses=jw)
     report.add(conv_runs=len(flat), conv_cycles_recorded=sum(r["cycles"] for _, _, r in flat),
                conv_requests={"%d->%d" % (fb * 8, tb * 8): len(reqs) for fb, tb, reqs in cfgs})
     # chunks bounded by number of transfers
@@ -423,6 +466,12 @@ def run_conv(report, tier, seed, scratch, log=print):
                 failing.append((ji, ci, verdicts[i]))
             else:
                 report.add(traces_validated_against_impl=1)
+    # vacuity: every configuration of the plan (the equal-width one included) was run in its claimed class
+    for fb, tb, _ in cfgs:
+        if not table.get((_dutname(fb * 8, tb * 8), max(fb, tb) // min(fb, tb), "supported"), [0])[0]:
+            raise MachineryError("no judged run of the supported class for the converter %d->%d bit" % (fb * 8, tb * 8))
+    if not any(fb == tb for fb, tb, _ in cfgs):
+        raise MachineryError("the converter plan lacks the equal-width configuration of AXIConverter")
     report.add(conv_classes=[{"dut": k[0], "ratio": k[1], "class": k[2], "runs": v[0], "failing_runs": v[1],
                               "violated_clauses": v[2]} for k, v in sorted(table.items())])
     for ji, ci, rec in flat[:1]:
